@@ -41,6 +41,10 @@ fn subtree(e: &Element) -> Vec<Element> {
 fn filter(n: &ANode, parent_et: autosar_data_specification::ElementType, version: AutosarVersion, dontcare: &mut bool) -> Option<ANode> {
     let vbit = version as u32;
     parent_et.find_sub_element(n.name, vbit)?;
+    // a type that has a SHORT-NAME in the destination version is not permitted there without one
+    if n.etype.is_named_in_version(version) && !n.children().any(|k| k.name == ElementName::ShortName) {
+        return None;
+    }
     let mut out = ANode::new(n.name, n.etype);
     out.comment = n.comment.clone();
     for (a, v) in &n.attrs {
